@@ -360,5 +360,5 @@ macro_rules! consuming_vs_cloning {
         }
     };
 }
+consuming_vs_cloning!(c15_consuming_vs_cloning_2, 2, 5);
 consuming_vs_cloning!(c15_consuming_vs_cloning_3, 3, 6);
-consuming_vs_cloning!(c15_consuming_vs_cloning_4, 4, 7);
